@@ -24,7 +24,7 @@ P = {
  "c05": ("exploration", "relational oracle points() vs contains() (through the PointsIter/ContainsPoint traits) on the real primitives, probing contains() on the bounding box plus a margin and on far-away points; order/uniqueness/bounding-box invariants on the yielded sequence; the iterator consumed through count/last/fold/nth/skip from partly consumed states",
          "Exhaustive over small sizes, radii, vertex grids and angle grids, random beyond.", "4 C05"),
  "c06": ("exploration", "reference model built from fill_area()/stroke_area().contains() compared with the recorded pixel maps of draw() (both targets, unbounded and bounded boxes) and pixels(); geometric oracle for the grown/shrunk areas",
-         "Exhaustive over the four closed shapes x small sizes x stroke widths (also wider than the shape) x alignments x colour presence.", "4 C06"),
+         "Exhaustive over the four closed shapes x small sizes x stroke widths (also wider than the shape, and inside strokes of extreme width up to u32::MAX) x alignments x colour presence.", "4 C06"),
  "c07": ("exploration", "metamorphic relation monitored on recorded pixel maps (unbounded and bounded targets): render(x.translate(d)) == shift(render(x), d), likewise points(), contains(), bounding boxes and text's returned position; translate_mut == translate; two translations add up",
          "All drawables of the zoo x offsets incl. axis crossings; polylines also by moving vertices.", "4 C07"),
  "c08": ("exploration", "sanitizer-style build (overflow checks + debug assertions) with panic monitor (attribution by panic location/backtrace), counting global allocator armed around library calls, iterator step budgets, per-case wall-clock watchdog (non-termination); boundary-biased display-scale workloads in the default and fixed_point feature sets; Miri pass over the rejection workload in the thorough tier",
@@ -35,9 +35,9 @@ P = {
          "Read-your-writes, no write outside, tail bytes untouched, layout equals ImageRaw's.", "4 C10"),
  "c11": ("exploration", "independent encoder of the two documented layouts as reference model for store/load; iterator positions and size_hint after random next()/nth() mixes compared with load(i); the iterator consumed through count/last/fold/skip; documented bit widths",
          "7 raw types x 2 orders x all indices in buffers 0..=L x all values up to 16 bits (exhaustive) / boundary+random 24/32 bits x background patterns.", "4 C11"),
- "c12": ("exploration", "exhaustive enumeration of every colour value and every raw value of all 14 colour types against the documented bit layouts (independent model)",
+ "c12": ("exploration", "exhaustive enumeration of every colour value and every raw value of all 14 colour types against the documented bit layouts (independent model); raw values obtained with RawData::load from packed bytes in both data orders",
          "Quick: all values up to 16 bits, per-channel exhaustive + random for 24-bit types; thorough: every value.", "4 C12"),
- "c13": ("exploration", "exhaustive enumeration of source colours for every From conversion between built-in colour types against exact rational scaling (nearest value, monotone, extremes, round trips, luma thresholds)",
+ "c13": ("exploration", "exhaustive enumeration of source colours for every From conversion between built-in colour types against exact rational scaling (nearest value, monotone, extremes, round trips, luma thresholds); sources made with constructors and from raw data with arbitrary padding bits",
          "Quick: all values up to 16 bits, per-channel exhaustive + random for 24-bit sources; thorough: every source value of every pair.", "4 C13"),
  "c14": ("exploration", "reference model of glyph placement (atlas cell designated by the font's mapping, read with font.image.pixel) compared with the recorded pixel map of Text::draw on unbounded and bounded targets; data checks over every built-in font and mapping incl. all 1.1 million scalar values per mapping",
          "All built-in fonts of the working tree x every mapped character + unmapped ones x colour/decoration combinations; custom fonts with spacing and odd atlases.", "4 C14"),
